@@ -163,14 +163,31 @@ fn nack_obligation<const N: usize>() {
     let mut j = 0;
     while j < dec.len() { assert!(contains(&seqs, dec[j])); j += 1; }
 }
+/// stand-in for std's sort_unstable (pattern-defeating quicksort does not finish in CBMC):
+/// assumed contract of the dependency = "sorts ascending"; this insertion sort satisfies it
+fn ins_sort_u16<T: Ord>(v: &mut [T]) {
+    let mut i = 1;
+    while i < v.len() {
+        let mut j = i;
+        while j > 0 && v[j - 1] > v[j] { v.swap(j - 1, j); j -= 1; }
+        i += 1;
+    }
+}
 #[kani::proof]
 #[kani::unwind(20)]
+#[kani::stub(<[u16]>::sort_unstable, ins_sort_u16)]
 fn c15_nack_set_preserved_2() { nack_obligation::<2>(); }
 #[kani::proof]
 #[kani::unwind(20)]
+#[kani::stub(<[u16]>::sort_unstable, ins_sort_u16)]
 fn c15_nack_set_preserved_3() { nack_obligation::<3>(); }
 #[kani::proof]
 #[kani::unwind(20)]
+#[kani::stub(<[u16]>::sort_unstable, ins_sort_u16)]
+fn c15_nack_set_preserved_4() { nack_obligation::<4>(); }
+#[kani::proof]
+#[kani::unwind(20)]
+#[kani::stub(<[u16]>::sort_unstable, ins_sort_u16)]
 fn c15_nack_body_roundtrip_pair() {
     // build_nack_body / parse_nack_body on one (pid, blp) worth of sequence numbers
     let pid: u16 = kani::any();
@@ -326,46 +343,71 @@ fn get_ext_twobyte_obligation<const N: usize>() {
 #[kani::unwind(14)]
 fn c15_get_extension_twobyte_8() { get_ext_twobyte_obligation::<8>(); }
 
-/// set then get: on a well-formed received block, get(id) == Some(d), every other id is unchanged,
-/// and the block stays 32-bit aligned (C15); on ANY received block set_extension is total (C07)
-fn set_ext_obligation<const N: usize>(well_formed_only: bool) {
-    let e: [u8; N] = kani::any();
-    let mut h = any_header(0, Some(RtpHeaderExtension { profile: 0xBEDE, data: static_bytes_of(e) }));
-    let id: u8 = kani::any();
-    let other: u8 = kani::any();
-    kani::assume(id >= 1 && id <= 14 && other >= 1 && other <= 14 && other != id);
-    let d: [u8; 2] = kani::any();
-    let before = h.get_extension(other).map(|b| { let mut a = [0u8; 16]; a[..b.len()].copy_from_slice(&b); (b.len(), a) });
-    // well-formedness of the received block: every element fits
-    let mut off = 0usize; let mut wf = true;
+/// well-formedness of a received one-byte-header block: every element fits (RFC 8285 4.2)
+fn onebyte_block_wf<const N: usize>(e: &[u8; N]) -> bool {
+    let mut off = 0usize;
     while off < N {
         let b = e[off];
         if b == 0 { off += 1; continue; }
         let len = (b & 0x0F) as usize + 1; off += 1;
         if b >> 4 == 15 { break; }
-        if off + len > N { wf = false; break; }
+        if off + len > N { return false; }
         off += len;
     }
-    if well_formed_only { kani::assume(wf); }
+    true
+}
+/// set then get on a well-formed received block: get(id) == Some(d), block stays 32-bit aligned (C15)
+fn set_get_obligation<const N: usize>() {
+    let e: [u8; N] = kani::any();
+    kani::assume(onebyte_block_wf(&e));
+    let mut h = any_header(0, Some(RtpHeaderExtension { profile: 0xBEDE, data: static_bytes_of(e) }));
+    let id: u8 = kani::any();
+    kani::assume(id >= 1 && id <= 14);
+    let d: [u8; 2] = kani::any();
     let r = h.set_extension(id, &d);
-    if wf {
-        assert!(r.is_ok());
-        let ext = h.extension.as_ref().unwrap();
-        assert!(ext.data.len() % 4 == 0 && ext.profile == 0xBEDE);
-        let g = h.get_extension(id).unwrap();
-        assert!(g[..] == d[..]);
-        let after = h.get_extension(other).map(|b| { let mut a = [0u8; 16]; a[..b.len()].copy_from_slice(&b); (b.len(), a) });
-        assert!(before == after);
-        kani::cover!(before.is_some());
-    }
+    assert!(r.is_ok());
+    let ext = h.extension.as_ref().unwrap();
+    assert!(ext.data.len() % 4 == 0 && ext.profile == 0xBEDE);
+    let g = h.get_extension(id).unwrap();
+    assert!(g[..] == d[..]);
+    core::mem::forget(g); core::mem::forget(h);
+}
+/// ... and every OTHER id reads back unchanged
+fn set_keeps_others_obligation<const N: usize>() {
+    let e: [u8; N] = kani::any();
+    kani::assume(onebyte_block_wf(&e));
+    let mut h = any_header(0, Some(RtpHeaderExtension { profile: 0xBEDE, data: static_bytes_of(e) }));
+    let (id, other): (u8, u8) = (kani::any(), kani::any());
+    kani::assume(id >= 1 && id <= 14 && other >= 1 && other <= 14 && other != id);
+    let mut before = [0u8; 17];
+    if let Some(b) = h.get_extension(other) { before[0] = b.len() as u8; before[1..1 + b.len()].copy_from_slice(&b); }
+    let d: [u8; 1] = kani::any();
+    let _ = h.set_extension(id, &d);
+    let mut after = [0u8; 17];
+    if let Some(b) = h.get_extension(other) { after[0] = b.len() as u8; after[1..1 + b.len()].copy_from_slice(&b); core::mem::forget(b); }
+    assert!(before == after);
+    kani::cover!(before[0] != 0);
     core::mem::forget(h);
+}
+/// on ANY received block (well-formed or not) set_extension is total (C07)
+fn set_total_obligation<const N: usize>() {
+    let e: [u8; N] = kani::any();
+    let mut h = any_header(0, Some(RtpHeaderExtension { profile: 0xBEDE, data: static_bytes_of(e) }));
+    let id: u8 = kani::any();
+    let d: [u8; 2] = kani::any();
+    let r = h.set_extension(id, &d);
+    if !onebyte_block_wf(&e) && id >= 1 && id <= 14 { kani::cover!(r.is_err()); }
+    core::mem::forget(r); core::mem::forget(h);
 }
 #[kani::proof]
 #[kani::unwind(12)]
-fn c15_set_get_extension_4() { set_ext_obligation::<4>(true); }
+fn c15_set_get_extension_4() { set_get_obligation::<4>(); }
 #[kani::proof]
 #[kani::unwind(12)]
-fn c07_set_extension_total_4() { set_ext_obligation::<4>(false); }
+fn c15_set_keeps_other_extension_4() { set_keeps_others_obligation::<4>(); }
+#[kani::proof]
+#[kani::unwind(12)]
+fn c07_set_extension_total_4() { set_total_obligation::<4>(); }
 
 // ---------------------------------------------------------------- C07: totality of the RTCP sub-parsers
 macro_rules! sub_total {
@@ -408,8 +450,9 @@ sub_total!(c07_parse_fir_24, parse_fir_body, 24, nofmt);
 // ---------------------------------------------------------------- SDES / BYE text items (RFC 3550 6.5, 6.6)
 /// build_sdes_body: the one-octet item length always equals the number of text bytes that
 /// follow it (otherwise the parser mis-frames everything after the item), chunk padded to 32 bits
+const A300: &str = "aaaaaaaaaaaaaaaaaaaaaaaaaaaaaaaaaaaaaaaaaaaaaaaaaaaaaaaaaaaaaaaaaaaaaaaaaaaaaaaaaaaaaaaaaaaaaaaaaaaaaaaaaaaaaaaaaaaaaaaaaaaaaaaaaaaaaaaaaaaaaaaaaaaaaaaaaaaaaaaaaaaaaaaaaaaaaaaaaaaaaaaaaaaaaaaaaaaaaaaaaaaaaaaaaaaaaaaaaaaaaaaaaaaaaaaaaaaaaaaaaaaaaaaaaaaaaaaaaaaaaaaaaaaaaaaaaaaaaaaaaaaaaaaaaaaaaaaaaaaaaaaaaaaaaaaaaaaa";
 fn sdes_len_obligation<const L: usize>() {
-    let text = String::from_utf8(vec![b'a'; L]).unwrap();
+    let text = A300[..L].to_string();
     let (ssrc, ty): (u32, u8) = (kani::any(), kani::any());
     kani::assume(ty != 0);
     let s = SourceDescription { chunks: vec![SdesChunk { ssrc, items: vec![SdesItem { ty, text }] }] };
@@ -423,22 +466,22 @@ fn sdes_len_obligation<const L: usize>() {
     core::mem::forget(s);
 }
 #[kani::proof]
-#[kani::unwind(310)]
+#[kani::unwind(12)]
 fn c15_sdes_item_length_2() { sdes_len_obligation::<2>(); }
 #[kani::proof]
-#[kani::unwind(310)]
+#[kani::unwind(12)]
 fn c15_sdes_item_length_3() { sdes_len_obligation::<3>(); }
 #[kani::proof]
-#[kani::unwind(310)]
+#[kani::unwind(12)]
 fn c15_sdes_item_length_4() { sdes_len_obligation::<4>(); }
 #[kani::proof]
-#[kani::unwind(310)]
+#[kani::unwind(12)]
 fn c15_sdes_item_length_5() { sdes_len_obligation::<5>(); }
 /// two chunks: the second chunk starts right after the first one's terminator/padding and the
 /// crate's own parser recovers both (chunk framing law for every alignment residue of the first)
 fn sdes_two_chunks_obligation<const L: usize>() {
-    let t1 = String::from_utf8(vec![b'a'; L]).unwrap();
-    let t2 = String::from_utf8(vec![b'b'; 1]).unwrap();
+    let t1 = A300[..L].to_string();
+    let t2 = "b".to_string();
     let (s1, s2): (u32, u32) = (kani::any(), kani::any());
     let s = SourceDescription { chunks: vec![
         SdesChunk { ssrc: s1, items: vec![SdesItem { ty: 1, text: t1 }] },
@@ -472,7 +515,7 @@ fn c15_sdes_item_length_300() { sdes_len_obligation::<300>(); }
 #[kani::proof]
 #[kani::unwind(310)]
 fn c15_bye_reason_length_300() {
-    let reason = String::from_utf8(vec![b'a'; 300]).unwrap();
+    let reason = A300.to_string();
     let b = Goodbye { sources: vec![kani::any()], reason: Some(reason) };
     let body = build_goodbye_body(&b);
     assert!(body[4] == 255 && body.len() == 4 + 1 + 255);
@@ -484,7 +527,7 @@ fn c15_bye_reason_length_300() {
 macro_rules! walker_total {
     ($name:ident, $n:expr) => {
         #[kani::proof]
-        #[kani::unwind(40)]
+        #[kani::unwind(8)]
         #[kani::stub(tracing::callsite::DefaultCallsite::interest, st_interest)]
         #[kani::stub(tracing::__macro_support::__is_enabled, st_enabled)]
         #[kani::stub(tracing::Event::dispatch, st_dispatch)]
